@@ -521,6 +521,44 @@ func runC20(c *Ctx) {
 				}
 				held := c.lockHeldAt(f, fa, c.Path(fa.X, nil)+"."+gf.mutex, write)
 				c.Check("C20.L1", short(f.String())+":"+mode+"("+gf.typ+"."+gf.field+")", held, fa.Pos(), fmt.Sprintf("%s of %s.%s holds %s in the required mode", mode, gf.typ, gf.field, gf.mutex))
+				// L4: the guarded container itself (a map / slice header read under the lock) is not used outside the
+				// critical section: every use of the loaded value happens with the lock held, and it is not returned,
+				// stored or handed to another function (the lock protects the container, not just the field holding it)
+				for _, r := range *fa.Referrers() {
+					ld, isLd := r.(*ssa.UnOp)
+					if !isLd || ld.Op != token.MUL || !isRefLike(ld.Type()) {
+						continue
+					}
+					var bad []string
+					for _, u := range *ld.Referrers() {
+						switch z := u.(type) {
+						case *ssa.DebugRef:
+						case *ssa.Return:
+							bad = append(bad, "returned at "+c.pos(z.Pos()))
+						case *ssa.Store:
+							if z.Val == ssa.Value(ld) {
+								bad = append(bad, "stored at "+c.pos(z.Pos()))
+							}
+						case *ssa.Call:
+							if bi, isB := z.Call.Value.(*ssa.Builtin); isB && (bi.Name() == "len" || bi.Name() == "delete" || bi.Name() == "clear" || bi.Name() == "cap") {
+								if !c.lockHeldAt(f, z, c.Path(fa.X, nil)+"."+gf.mutex, false) {
+									bad = append(bad, "used without the lock at "+c.pos(z.Pos()))
+								}
+							} else {
+								for _, a := range z.Call.Args {
+									if a == ssa.Value(ld) {
+										bad = append(bad, "handed to "+calleeName(&z.Call)+" at "+c.pos(z.Pos()))
+									}
+								}
+							}
+						default:
+							if ui, isI := u.(ssa.Instruction); isI && !c.lockHeldAt(f, ui, c.Path(fa.X, nil)+"."+gf.mutex, false) {
+								bad = append(bad, "used without the lock at "+c.pos(ui.Pos()))
+							}
+						}
+					}
+					c.Check("C20.L4", short(f.String())+":"+gf.typ+"."+gf.field+":container-stays-inside-the-critical-section", len(bad) == 0, ld.Pos(), fmt.Sprintf("the %s read from %s.%s is used only while %s is held and does not leave the function", typeShort(ld.Type()), gf.typ, gf.field, gf.mutex), bad...)
+				}
 			})
 		}
 		if n == 0 {
@@ -528,6 +566,43 @@ func runC20(c *Ctx) {
 		}
 	}
 	c.Min("C20.L1", 5)
+	c.Min("C20.L4", 5)
+
+	// ---------- L5 a struct that holds a mutex is never copied: no method with a value receiver, no parameter, result or
+	// assignment of the struct by value (a copy has its own, unlocked mutex and shares the guarded containers)
+	for _, gf := range gfs {
+		nt := c.NamedType(gf.pkg, gf.typ)
+		if nt == nil {
+			continue
+		}
+		var bad []string
+		for _, f := range c.Funcs {
+			sig := f.Signature
+			if sig.Recv() != nil && types.Identical(sig.Recv().Type(), nt) {
+				bad = append(bad, "value receiver: "+short(f.String()))
+			}
+			for i := 0; i < sig.Params().Len(); i++ {
+				if types.Identical(sig.Params().At(i).Type(), nt) {
+					bad = append(bad, "by-value parameter of "+short(f.String()))
+				}
+			}
+			for i := 0; i < sig.Results().Len(); i++ {
+				if types.Identical(sig.Results().At(i).Type(), nt) {
+					bad = append(bad, "by-value result of "+short(f.String()))
+				}
+			}
+			forEachInstr(f, func(in ssa.Instruction) {
+				if ld, ok := in.(*ssa.UnOp); ok && ld.Op == token.MUL && types.Identical(ld.Type(), nt) {
+					if _, fresh := ld.X.(*ssa.Alloc); !fresh {
+						bad = append(bad, "copied by value in "+short(f.String())+" at "+c.pos(ld.Pos()))
+					}
+				}
+			})
+		}
+		sort.Strings(bad)
+		c.Check("C20.L5", gf.typ+":never-copied", len(bad) == 0, nt.Obj().Pos(), fmt.Sprintf("%s (holds %s) is only used through pointers", gf.typ, gf.mutex), bad...)
+	}
+	c.Min("C20.L5", 2)
 
 	// ---------- L3 atomic check-then-act: a write to a guarded container that is control-dependent on a
 	// read of the same container must happen in the critical section that contains that read.
